@@ -1,5 +1,11 @@
+#[cfg(not(desync_verif))]
 use std::thread;
+#[cfg(desync_verif)]
+use crate::verif::thread;
+#[cfg(not(desync_verif))]
 use std::sync::mpsc::*;
+#[cfg(desync_verif)]
+use crate::verif::mpsc::*;
 
 ///
 /// Creates a FnMut that runs a FnOnce once (or panics)
